@@ -516,6 +516,32 @@ def rule_r7(ctx) -> List[R.Inst]:
         init = M.method(c, "__init__")
         file, line = fn_loc(M, init)
         key = f"{c.split('.')[-1]}.__init__"
+        # two sources of a field's default — the constructor signature and the declared _props — must agree at least in type:
+        # lists built through empty() / from_dict / converters carry the declared default, items built by hand the constructor's
+        own_init = M.funcs.get(init) if isinstance(init, str) else None
+        if own_init is not None and own_init.cls == c:
+            a_ = own_init.node.args
+            names_ = [x.arg for x in a_.args][1:]
+            dm_ = dict(zip(names_[::-1], a_.defaults[::-1]))
+            fields_ = M.item_fields(c)
+            for fld_, dnode_ in sorted(dm_.items()):
+                if fld_ not in fields_:
+                    continue
+                try:
+                    cv_ = ast.literal_eval(dnode_)
+                except Exception:
+                    continue
+                dv_ = fields_[fld_][1]
+                num_ = (int, float)
+                same_type = type(cv_) is type(dv_) or (isinstance(cv_, num_) and isinstance(dv_, num_) and not isinstance(cv_, bool)
+                                                       and not isinstance(dv_, bool))
+                if not same_type:
+                    insts.append(R.viol("C16.R7", f"{c.split('.')[-1]}.default:{fld_}", file, dnode_.lineno,
+                                        f"'{fld_}' defaults to {cv_!r} ({type(cv_).__name__}) in the constructor but to {dv_!r} "
+                                        f"({type(dv_).__name__}) in the declared fields: lists built through empty(), from_dict or a converter "
+                                        f"carry a value of the other type (a BMS chart made by a converter has sample 0 where every reader of "
+                                        f"the column expects bytes)", construct=f"{c.split('.')[-1]}.{fld_}: ctor {cv_!r} vs declared {dv_!r}"))
+                    insts[-1].reach = (TL + ".empty", TL + ".from_dict", init)
         alt = ctor_alterations(ctx, c)
         if got == declared and alt:
             f_, e_, k_, ln_ = alt[0]
